@@ -175,3 +175,23 @@ Proof.
     exact (spec_locate_mono e s l1 c1 l2 c2 0 a p1 b p2 H E1 E2).
 Qed.
 Print Assumptions C04_reference_agrees.
+
+(* Queries are stateless: the model's TextDocument queries (Model/DocQuery.v, Model/Codec.v) are
+   functions of (encoding, current text, position) and of nothing else - no earlier query or edit
+   can influence them - so after every valid history they answer what a fresh document holding the
+   reference text answers.  This is the clause the correspondence run checks between the
+   notifications (a cache that is not invalidated on some path of the real code breaks it). *)
+From Pygls Require Import Model.DocQuery.
+Theorem C04_queries_stateless :
+  forall e k text v0 ns, valid_history e k text ns = true -> guard_history e k text ns = true ->
+    let d := run e k text v0 ns in let t := spec_text e k text ns in
+    lines d = lsp_lines t /\
+    (forall p, offset_at_position e (source d) p = offset_at_position e t p) /\
+    (forall p, word_at_position e (source d) p = word_at_position e t p) /\
+    (forall p, position_from_client_units e (lines d) p = position_from_client_units e (lsp_lines t) p) /\
+    (forall p, position_to_client_units e (lines d) p = position_to_client_units e (lsp_lines t) p).
+Proof.
+  intros e k text v0 ns Hv Hg d t. unfold lines. subst d t.
+  rewrite (proj1 (C04_partial e k text v0 ns Hv) Hg). repeat split.
+Qed.
+Print Assumptions C04_queries_stateless.
